@@ -1,6 +1,38 @@
-//! res operations (stub; filled in by the area owner).
+//! C04 / C05 / C10: resultant, discriminant, gcd in Z[x] (src/resultant.rs, src/discriminant.rs).
+//! Polynomials are coefficient lists, lowest degree first, built with Polynomial::from_raw.
+//! A trailing profile argument (checked | wrapping) is only read by the model.
+use crate::ops::poly::{qp, tzp, zp};
 use crate::term::*;
+use rust_number_theory::{discriminant, resultant};
 
-pub fn dispatch(_op: &str, _a: &[Term]) -> Option<Term> {
-    None
+pub fn dispatch(op: &str, a: &[Term]) -> Option<Term> {
+    Some(match op {
+        "resultant" => tb(&resultant::resultant(&zp(&a[0]), &zp(&a[1]))),
+        "resultant_rational" => tr(&resultant::resultant_rational(&qp(&a[0]), &qp(&a[1]))),
+        "resultant_gcd" => tzp(&resultant::resultant_gcd(&zp(&a[0]), &zp(&a[1]))),
+        "discriminant" => tb(&discriminant::discriminant(&zp(&a[0]))),
+        // list variants: the same call on several inputs (metamorphic relations)
+        "resultant_list" => tl(a[0]
+            .list()
+            .iter()
+            .map(|p| tb(&resultant::resultant(&zp(&p.list()[0]), &zp(&p.list()[1]))))
+            .collect()),
+        "resultant_rational_list" => tl(a[0]
+            .list()
+            .iter()
+            .map(|p| tr(&resultant::resultant_rational(&qp(&p.list()[0]), &qp(&p.list()[1]))))
+            .collect()),
+        "discriminant_list" => tl(a[0]
+            .list()
+            .iter()
+            .map(|f| tb(&discriminant::discriminant(&zp(f))))
+            .collect()),
+        "disc_prod" => tl(vec![
+            tb(&discriminant::discriminant(&zp(&a[0]))),
+            tb(&discriminant::discriminant(&zp(&a[1]))),
+            tb(&discriminant::discriminant(&zp(&a[2]))),
+            tb(&resultant::resultant(&zp(&a[0]), &zp(&a[1]))),
+        ]),
+        _ => return None,
+    })
 }
